@@ -33,13 +33,17 @@ type vfVotes struct {
 	hasZero []bool
 }
 
-// vfAmt: 0 or an amount of exactly 11 bytes (2^80 <= x < 2^88; the staking minimum 10^22 is below 2^80). Keeps the
-// byte-length case split of the serialised records small.
-func vfAmt(name string) *big.Int {
+// vfAmt: an amount as it occurs in a reachable governance state: 0 (only if zeroOK) or staking minimum <= x < 2^88.
+// The staking minimum (10^22) has 10 bytes, 2^88 - 1 has 11: the serialised records have amounts of 0, 10 or 11 bytes
+// (the engine forks on the byte length where a record is serialised), so comparisons of amounts of DIFFERENT byte
+// lengths are covered (refreshAllVote: remaining stake of 10 bytes against an old vote of 11 bytes).
+func vfAmt(name string, zeroOK bool) *big.Int {
 	b := vf.Big(name)
-	lo := new(big.Int).SetBytes(append([]byte{1}, make([]byte, 10)...))
-	hi := new(big.Int).SetBytes(append([]byte{1}, make([]byte, 11)...))
-	vf.Assume(vf.Or(b.Sign() == 0, vf.And(b.Cmp(lo) >= 0, b.Cmp(hi) < 0)))
+	ok := vf.And(b.Cmp(GetStakingMinimum()) >= 0, b.Cmp(vfAmtBound) < 0)
+	if zeroOK {
+		ok = vf.Or(b.Sign() == 0, ok)
+	}
+	vf.Assume(ok)
 	return b
 }
 
@@ -150,16 +154,70 @@ func (g *vfGov) refreshGhostVotes(i int, v *vfVotes) {
 	}
 }
 
-// one entry per pre-state shape so that the shapes run in parallel
-func VF_C15_step_s0() { vfStep(0) }
-func VF_C15_step_s1() { vfStep(1) }
-func VF_C15_step_s2() { vfStep(2) }
-func VF_C15_step_s3() { vfStep(3) }
-func VF_C15_step_s4() { vfStep(4) }
-func VF_C15_step_s5() { vfStep(5) }
+// shapes of an account's pre-state
+const (
+	vfShNone  = iota // no staking record, no vote record
+	vfShZero         // staking record with amount 0 (left by a full unstake), vote record with amount 0
+	vfShStake        // stake, no vote record
+	vfShVote         // stake and a vote record
+)
 
-func vfStep(shape int) {
-	nc := vf.Param("cands", 2)
+// One entry per (operation, pre-state shape of the acting account A) so that the shapes run in parallel.
+//   misc:     A has no record or a zero record: stake / unstake / vote
+//   stake:    A has a stake (with or without a vote record): stake more
+//   unstake:  A has a stake and no vote / a vote for c0 / c1 / both: unstake (refreshAllVote)
+//   vote:     A has a stake and no vote / a vote for c0 / c1 / both: vote for a new candidate set
+func VF_C15_step_misc()       { vfStep(-1, -1, 0) }
+func VF_C15_step_stake()      { vfStep(0, -1, 0) }
+func VF_C15_step_unstake_m0() { vfStep(1, vfShStake, -1) }
+func VF_C15_step_unstake_m1() { vfStep(1, vfShVote, 1) }
+func VF_C15_step_unstake_m2() { vfStep(1, vfShVote, 2) }
+func VF_C15_step_unstake_m3() { vfStep(1, vfShVote, 3) }
+func VF_C15_step_unstake_e()  { vfStep(1, vfShVote, 0) } // vote record without candidates (voteBP with no argument)
+func VF_C15_step_vote_m0()    { vfStep(2, vfShStake, -1) }
+func VF_C15_step_vote_m1()    { vfStep(2, vfShVote, 1) }
+func VF_C15_step_vote_m2()    { vfStep(2, vfShVote, 2) }
+func VF_C15_step_vote_m3()    { vfStep(2, vfShVote, 3) }
+func VF_C15_step_vote_e()     { vfStep(2, vfShVote, 0) }
+
+// preAccount writes the pre-state records of account i through the real setters and returns its stake
+func (g *vfGov) preAccount(i int, v *vfVotes, shape, mask int) *big.Int {
+	st := new(big.Int)
+	if shape == vfShNone {
+		return st
+	}
+	if shape != vfShZero {
+		st = vfAmt("stake", false)
+	}
+	when := vf.U64("when")
+	vf.Assume(when <= g.no)
+	if err := setStaking(g.scs, g.addr[i], &types.Staking{Amount: st.Bytes(), When: when}); err != nil {
+		panic(err)
+	}
+	g.gStake[i], g.gWhen[i], g.gHas[i] = st, when, true
+	if shape == vfShStake || mask < 0 {
+		return st
+	}
+	va := new(big.Int)
+	if shape == vfShVote {
+		// the recorded vote amount is at most the stake (I); 0 with a record: full unstake, then staked again
+		va = vfAmt("voteAmount", vf.Param("voteZero", 0) == 1)
+		vf.Assume(va.Cmp(st) <= 0)
+	}
+	if err := setVote(g.scs, defaultVoteKey, g.addr[i], &types.Vote{Candidate: v.candBytes(mask), Amount: va.Bytes()}); err != nil {
+		panic(err)
+	}
+	v.mask[i], v.amt[i] = mask, va
+	return st
+}
+
+func vfStep(op, shapeA, maskA int) {
+	nc := 2
+	if vf.Param("mapPerm", 0) == 0 {
+		// the order of `range rmap` in buildVoteList is fixed here; C02.a.votelist decides that the list does not
+		// depend on it
+		vf.NoMapPerm(true)
+	}
 	g := vfNewGov()
 	v := &vfVotes{}
 	for k := 0; k < nc; k++ {
@@ -170,38 +228,30 @@ func vfStep(shape int) {
 		v.cands = append(v.cands, c)
 		v.keys = append(v.keys, base58.Encode(c))
 	}
-	// ---- arbitrary pre-state satisfying I
-	// shapes: A in {no record, stake only, stake + vote}, B in {no record, stake + vote}; vote masks by choice
-	shapes := [][2]int{{0, 0}, {1, 0}, {2, 0}, {0, 2}, {1, 2}, {2, 2}}
-	sh := shapes[shape]
-	total := new(big.Int)
-	for i := range g.addr {
+	for range g.addr {
 		v.mask = append(v.mask, -1)
 		v.amt = append(v.amt, new(big.Int))
-		if sh[i] == 0 {
-			continue
-		}
-		st := vfAmt("stake")
-		when := vf.U64("when")
-		vf.Assume(when <= g.no)
-		if err := setStaking(g.scs, g.addr[i], &types.Staking{Amount: st.Bytes(), When: when}); err != nil {
-			panic(err)
-		}
-		g.gStake[i], g.gWhen[i], g.gHas[i] = st, when, true
-		total = new(big.Int).Add(total, st)
-		if sh[i] == 2 {
-			m := vf.Choice("mask", 1<<uint(nc))
-			if i == 1 {
-				m = 1 + 2*vf.Choice("maskB", 1<<uint(nc-1)) // B always votes for candidate 0 (candidates are symmetric)
-			}
-			va := vfAmt("voteAmount")
-			vf.Assume(va.Cmp(st) <= 0)
-			if err := setVote(g.scs, defaultVoteKey, g.addr[i], &types.Vote{Candidate: v.candBytes(m), Amount: va.Bytes()}); err != nil {
-				panic(err)
-			}
-			v.mask[i], v.amt[i] = m, va
-		}
 	}
+	// ---- arbitrary pre-state satisfying I
+	switch {
+	case op == -1: // misc
+		shapeA = []int{vfShNone, vfShZero}[vf.Choice("shapeA", 2)]
+		maskA = 1
+		op = vf.Choice("op", 3)
+	case op == 0: // stake
+		shapeA = []int{vfShStake, vfShVote}[vf.Choice("shapeA", 2)]
+		maskA = 3
+	}
+	// B ("everybody else"): absent, or staking and voting for c0 (bBoth=1: or for both candidates)
+	shapeB, maskB := vfShNone, 0
+	switch vf.Choice("shapeB", 2+vf.Param("bBoth", 0)) {
+	case 1:
+		shapeB, maskB = vfShVote, 1
+	case 2:
+		shapeB, maskB = vfShVote, 3
+	}
+	total := new(big.Int).Add(g.preAccount(0, v, shapeA, maskA), g.preAccount(1, v, shapeB, maskB))
+	vf.Assume(total.Cmp(vfAmtBound) < 0)
 	rmap := map[string]*big.Int{}
 	for k := range v.cands {
 		// a candidate appears in the stored list iff somebody voted for it at some time (its tally may be 0 by now)
@@ -232,7 +282,7 @@ func vfStep(shape int) {
 	g.checkAccounting()
 	g.checkVotes(v)
 	// ---- one operation of account A
-	switch vf.Choice("op", 3) {
+	switch op {
 	case 0:
 		g.stake(0)
 	case 1:
@@ -244,5 +294,9 @@ func vfStep(shape int) {
 	vf.Reach("C15.step")
 	g.checkAccounting()
 	g.checkVotes(v)
+	for i := range g.addr {
+		// C15.c: a stake is never left in (0, minimum)
+		vf.Assert(vf.Or(g.gStake[i].Sign() == 0, g.gStake[i].Cmp(GetStakingMinimum()) >= 0), "C15.c.min-invariant")
+	}
 	vf.Observe("total", g.gTotal)
 }
